@@ -100,6 +100,8 @@ def _once(kind, bits, env_mode, method, order, ns_val):
         if bits["dflt2"]:
             with open(f2, "w") as f:
                 f.write(_yaml(kind, 12, append=(kind in LISTY)))
+        if bits.get("dir_matches_pattern"):
+            os.makedirs(os.path.join(root, "pat_dir.yaml"))  # a directory that the pattern matches too: not a config file, nothing to apply
         files = [f1, os.path.join(root, "pat_*.yaml")]
         if bits.get("dflt1_again"):
             files.append(f1)  # the same file listed a second time, after the pattern: it is applied again, in its place
@@ -208,6 +210,8 @@ def precedence(kind, method, env_mode, permute=False, shard=None, nshards=1, fix
             bits["envcfg_append"] = S.flag("envcfg_append")
         if kind == "str" and bits["envvar"]:
             bits["envvar_empty"] = S.flag("envvar_empty")
+        if kind == "flat" and (bits["dflt1"] or bits["dflt2"]):
+            bits["dir_matches_pattern"] = S.flag("dir_matches_pattern")
         order = ARGV_ITEMS
         if permute and method == "parse_args":
             order = ORDERS[S.choice("order", len(ORDERS))]
